@@ -76,6 +76,8 @@ def run(ck: Check, repo: Repo) -> None:
         _recreate_contract(ck, repo, cls, methods)
     ck.floor("C03.1", n_methods, 24, "LAYER/NODE mutation methods in the 7 in-scope classes")
     ck.floor("C03.1", n_writes, 26, "architecture writes inside mutation methods")
+    from ._c03_extra import run_extra
+    run_extra(ck, repo)
     _kernel_bound(ck, repo)
     _rebuild_consumes(ck, repo)
     _build_agreement(ck, repo)
@@ -741,6 +743,10 @@ _MI = "agilerl/modules/multi_input.py"
 _NB = "agilerl/networks/base.py"
 _MB = "agilerl/modules/base.py"
 VARIANTS = [
+    ("stale-forwarded-wrappers", _MB, "                if method_name in self.__dict__:\n                    object.__setattr__(\n                        self,\n                        method_name,\n                        _mutation_wrapper(self, method, method_name),\n                    )\n", "                pass\n", "fire", "C03.13"),
+    ("lstm-validator-rejects-numpy-int", "agilerl/networks/base.py", "        net_config[\"hidden_size\"], (int, np.int64)\n    ), \"Net config hidden_size must be an integer.\"\n\n\n# TODO", "        net_config[\"hidden_size\"], int\n    ), \"Net config hidden_size must be an integer.\"\n\n\n# TODO", "fire", "C03.10"),
+    ("added-3d-kernel-inherits-depth", _CNN, "                other = (1, other, other)", "                other = (self.sizes[-1][0], other, other)", "fire", "C03.11"),
+    ("multi-input-rebuild-width-formula", _MI, "        features_dim = extracted_features_dim + self.total_vector_dims * (\n            1 - self.vector_space_mlp\n        )\n        final_dense", "        features_dim = extracted_features_dim + self.total_vector_dims\n        final_dense", "fire", "C03.12"),
     ("mlp-add-layer-le", _MLP, "if len(self.hidden_size) < self.max_hidden_layers:  # HARD LIMIT", "if len(self.hidden_size) <= self.max_hidden_layers:  # HARD LIMIT", "fire", "C03.1"),
     ("mlp-add-layer-wrong-bound", _MLP, "if len(self.hidden_size) < self.max_hidden_layers:  # HARD LIMIT", "if len(self.hidden_size) < self.max_mlp_nodes:  # HARD LIMIT", "fire", "C03.1"),
     ("mlp-remove-layer-ge", _MLP, "if len(self.hidden_size) > self.min_hidden_layers:  # HARD LIMIT", "if len(self.hidden_size) >= self.min_hidden_layers:  # HARD LIMIT", "fire", "C03.1"),
